@@ -26,7 +26,29 @@ def run(ctx):
     from ..rules_parse import RelabelLedger
 
     for v in (2, 3, 4):
-        n += RJ.check_c11(ctx, led, v)
+        try:
+            n += RJ.check_c11(ctx, led, v)
+        except Exception as ex:
+            # as_json() could not be interpreted to the end; if it was seen iterating the parsed map
+            # in field order, the document depends on how the input was written: that is a finding
+            from ..rules_score import get_model
+
+            try:
+                om_ = get_model(ctx, v)
+                hits = [e for e in om_.ev.events[om_.init_events_end :] if e.kind == "input_order_iter"]
+            except Exception:
+                hits = []
+            from ..srcmodel import short
+
+            for e in hits[:1]:
+                led.violation(
+                    "C11.order",
+                    "%s::%s" % (e.func.qualname if e.func else "?", short(e.node)),
+                    e.where(),
+                    "as_json() iterates the parsed metric map (%s): which fields it emits then depends on the order in which the "
+                    "input listed the metrics, not only on their values" % e.data.get("what"),
+                )
+            raise
         # "every score or severity field present equals the corresponding defined score and its
         # rating": slot pairing and float(score) (the rules of C09.agree.json, discharged here), and
         # each *Severity key tabulated over the score grid against the official scale
